@@ -59,7 +59,7 @@ Qed.
 Lemma text_chr t o : t <> [] ->
   text_number NChr o t =
   match skip_space t with
-  | [] => CKeep
+  | [] => CZero
   | c :: _ => if is_graph c then CVal (NvInt (Z.of_N c)) else CErr BadType
   end.
 Proof.
